@@ -27,7 +27,8 @@ import (
 //	             bytes are exactly the written messages, one JSON value each)
 //	hand-compact the harness's own serialisation, values separated by Sep
 //	             ("" / LF / space / CRLF / blank lines — all legal between JSON values)
-//	hand-indent  the same, pretty-printed
+//	hand-spelled the same in alternative valid JSON spellings (spell.go): escapes,
+//	             surrogate pairs, "\/", white space between tokens, member order
 //
 // ORACLE: Read returns the written sequence (kind, id, method, canonical
 // payload, error members), then an error; if the image was cut inside its last
@@ -92,14 +93,12 @@ func rawWire(cs rtCase) (wire []byte, bounds []int, err error) {
 		wire = w.Bytes()
 	default:
 		var b bytes.Buffer
-		for _, m := range cs.Msgs {
+		for i, m := range cs.Msgs {
 			body := handBody(m)
-			if cs.Wire == "hand-indent" {
-				var ind bytes.Buffer
-				if err := json.Indent(&ind, []byte(body), "", "\t"); err != nil {
-					return nil, nil, fmt.Errorf("harness serialisation is not JSON: %v", err)
+			if cs.Wire == "hand-spelled" {
+				if body, err = spelled(m, cs.SpellSeed+int64(i)); err != nil {
+					return nil, nil, err
 				}
-				body = ind.String()
 			}
 			b.WriteString(body)
 			b.WriteString(cs.Sep)
@@ -239,19 +238,25 @@ func (k *checker) rawSequence(seed int64, msgs []mspec, wants []desc, r *rand.Ra
 		}
 		c.Violate("rawstream/"+name+"/"+class, detail, red)
 	}
-	for wi, wk := range []string{"write", "hand-compact", "hand-indent"} {
+	big := false
+	for wi, wk := range []string{"write", "hand-compact", "hand-spelled"} {
 		cs := rtCase{Stream: "raw", Wire: wk, Msgs: msgs}
 		switch wk {
 		case "hand-compact":
 			cs.Sep = rawSeps[r.Intn(len(rawSeps))]
-		case "hand-indent":
-			cs.Sep = "\n"
+		case "hand-spelled":
+			cs.Sep = rawSeps[r.Intn(len(rawSeps))]
+			cs.SpellSeed = r.Int63n(1 << 40)
+		}
+		if wk == "hand-spelled" && big {
+			continue // the 1 MB sequences are about buffer boundaries, not spellings
 		}
 		wire, bounds, err := rawWire(cs)
 		if err != nil {
 			c.Violate("rawstream/"+wk+"/write-error", err.Error(), cs)
 			continue
 		}
+		big = big || len(wire) > 400000
 		k.add("raw_wire_bytes", len(wire))
 		if wk == "write" {
 			cs.Chunk = chunking{Name: "tap", Family: "tap"}
